@@ -25,6 +25,8 @@ def run(project, rep):
     rep.run(U.u_r7_index_deletion, schema, rep)
     rep.run(U.u_r8_nullable_fields, schema, rep)
     rep.run(U.u_r10_tables_indexed_by_tag, schema, rep)
+    rep.run(U.u_r11_no_edit_of_the_sequence_being_iterated, schema, rep)
+    rep.run(U.u_r12_unknown_tag_text_never_unpacked, schema, rep)
     from .. import rules_header as H
     rep.rule("U-R11", "an unknown aggregate reaches the model layer whole, whatever it contains: the body handed to the tokenizer is the decoded remainder, not cut at an inner `</OFX>` or rewritten (the hand-over clauses of H-R1)")
     rep.run_only(("H-R1",), H.h_r1, project, rep, constructs=("parse_header:body-not-rewritten", "parse_header:v1-body-handed-over-whole"))
@@ -34,3 +36,4 @@ def run(project, rep):
     rep.run(P.p_r7_every_match_fed, project, rep)
     rep.run(P.x_rules, project, rep)
     rep.run(P.p_rules, project, rep)
+    rep.run(P.p_r12_feed_refuses_only_what_it_tokenized, project, rep)
